@@ -86,6 +86,19 @@ Example C17_roundtrip_nonvacuous :
   /\ parse_cookie nob hC (make_cookie hC (PS "a|b::c: ") [] (PS "17") 0 (PS "tok")) = Ok (PS "a|b::c: ", [], PS "17").
 Proof. repeat split; vm_compute; reflexivity. Qed.
 
+(* ... and so is content a decoding layer would rewrite (percent escapes of '/', ' ', '|', '%', "::", plus signs,
+   entities, octal escapes) in value and type: the theorems above quantify over all strings, no character is
+   special to the format except '|' in the timestamp and "::" / a leading ':' in the type *)
+Example C17_roundtrip_nonvacuous_escapes :
+  let v := PS "{""return_to"": ""https://rp.example.org/cb?next=%2Fhome&x=a%20b+c"", ""note"": ""100%7Csure|15%25::%3A%3A&#124;\174""}" in
+  let t := PS "s%20so+%7C" in
+  nonempty_content v t = true /\ typ_ok t = true /\ last_is space t = false
+  /\ parse_cookie nob hS (make_cookie hS v t (PS "17") 0 (PS "iv")) = Ok (v, t, PS "17")
+  /\ parse_cookie nob hSE (make_cookie hSE v t (PS "17") 0 (PS "aXY=")) = Ok (v, t, PS "17")
+  /\ parse_cookie nob (mk_handler None (Some 2%nat) None) (make_cookie (mk_handler None (Some 2%nat) None) v t (PS "17") 0 (PS "aXY=")) = Ok (v, t, PS "17")
+  /\ parse_cookie nob hC (make_cookie hC v t (PS "17") 0 (PS "tok")) = Ok (v, t, PS "17").
+Proof. repeat split; vm_compute; reflexivity. Qed.
+
 (* ---------------------------------------------------------------- tamper evidence
    G: the cookies the provider issued.  knowledge h G: the cryptographic values inside them plus every key
    that is not one of the handler's.  wire_derivable K w: w consists of arbitrary characters and of blobs
